@@ -181,7 +181,10 @@ def load(names=None, repo=None, shadows=True, extra_globals=None, vfs=None):
         path = os.path.join(repo, name + '.py')
         src = open(path).read()
         ld.sha[name] = hashlib.sha256(src.encode()).hexdigest()[:16]
-        tree = ast.parse(src, filename=path)
+        import warnings
+        with warnings.catch_warnings():
+            warnings.simplefilter('ignore')
+            tree = ast.parse(src, filename=path)
         # load dependencies first (so that `from X import *` finds them)
         def toplevel(stmts):
             for node in stmts:
@@ -208,7 +211,10 @@ def load(names=None, repo=None, shadows=True, extra_globals=None, vfs=None):
             tree = rw.visit(tree)
         ast.fix_missing_locations(tree)
         ld.rewrites[name] = dict(rw.counts)
-        code = compile(tree, path, 'exec')
+        import warnings
+        with warnings.catch_warnings():
+            warnings.simplefilter('ignore')
+            code = compile(tree, path, 'exec')
         mod = types.ModuleType(full)
         mod.__file__ = path
         if shadows:
